@@ -34,7 +34,7 @@ def start_rtc(jobs, tier, seed, out_path, budget=None):
     env['PYTHONPATH'] = HERE
     env.setdefault('MPLBACKEND', 'Agg')
     cj = os.path.join(HERE, 'evidence', '.contracts.json')
-    if any(j.startswith('armed') for j in jobs):
+    if any(j.startswith('armed') or j == 'phase' for j in jobs):
         unitmod.export_all(cj)
     env['VF_CONTRACTS_JSON'] = cj
     for v in ('OMP_NUM_THREADS', 'OPENBLAS_NUM_THREADS', 'MKL_NUM_THREADS', 'NUMEXPR_NUM_THREADS'):
